@@ -30,12 +30,18 @@ INVALID = [
     'void f(int x) { if (x) goto zeta; if (x > 1) goto mid; goto alpha; }\n', 'void f(int x) { goto out; goto retry; goto fail; goto done; goto l1; goto l2; goto l3; }\n',
     'static int s1(void); static int s2(void); static int s3(void); int f(void) { return s1() + s2() + s3(); }\nint x = y;\n',
     'int a[]; int b[]; int c[]; struct u; struct u v1, v2;\n',
+    'struct point { int x, y; } p = { .x = 1, .z = 2 };\n', 'int a[1]' + '[1]' * 40 + ' = ' + '{' * 41 + '1' + '}' * 41 + ';\n',      # a name echoed by a diagnostic; a fatal() ending
     'void (*fp)(void); void g(void) { fp++; }\n',       # fixed 8c9fd0a: added the uninitialised size of the function type
 ]
 
 # valid units that make the emitter extend or patch buffers it got from realloc (zero-extension of string initialisers up to
 # a later designated element, strings patched by element designators, long literals): sensitive to the contents of fresh memory
 VALID_EXTRA = [
+    # per-argument bookkeeping of macro invocations: parameters that are unused or only stringized, before ones that are used
+    '#define PICK(unused, b) b\n#define NAME(a, b) #a, b\n#define THIRD(a, b, c) c\n#define MIX(a, b, c, d) #b d\nint p1 = PICK(9, 4); char *n1[] = { NAME(x y, "z") }; int t1 = THIRD(, , 7); char *m1 = MIX(1, q r, 3, "s");\n'
+     'int p2 = PICK((1, 2), PICK(3, 5)); char *n2[] = { NAME(PICK(1, 2), NAME(u, "v")) };\n',
+    # relational comparison of pointers (unsigned, whatever the heap holds)
+    'int a[8]; int in(int *p) { int *lo = a, *hi = a + 8; return (lo <= p && p < hi) + 2 * (p > lo) + 4 * (hi >= p); }\nchar *cp; int neg(void) { return cp < (char *)a || (char *)a <= cp; }\n',
     # fields of type descriptors that only some constructors set: enums with a fixed underlying type and no enumerator list
     'enum E : signed char; enum U : unsigned char; enum W : short;\nint f(enum E *p, enum U *q, enum W *r) { return *p + *q + (*p >> 1) + (*p < 0) + (*r >> 2) + (*q > 200); }\nlong g(enum E *p) { return *p; }\n',
     # look-ahead after `..` (pushed back into the stream: must also work when the input is a pipe), multi-line # arguments
@@ -93,6 +99,10 @@ def run(ctx):
                 p = os.path.join(work, 'vx%d_%s.c' % (i, tgt.split('_')[0].split('-')[0]))     # one file per run: -o names derive from it
                 open(p, 'w').write(s)
                 inputs.append((p, ['-t', tgt]))
+        okf = os.path.join(work, 'okf.c')
+        open(okf, 'w').write('int okf = 1;\n')
+        inputs.append((okf, ['-t', 'nosuchtarget']))
+        inputs.append((os.path.join(work, 'missing-input.c'), ['-t', 'x86_64-sysv']))
         # generated valid units (generator of C16) for variety
         try:
             import c16
@@ -141,7 +151,7 @@ def run(ctx):
         def one(inp):
             path, args = inp
             res = {}
-            src = open(path, 'rb').read()
+            src = open(path, 'rb').read() if os.path.exists(path) else None      # a missing input file is one of the cases
             b = run_limited([exe] + args + [path], timeout=20, env=base_env, cwd=os.path.dirname(path))
             res['base'] = b
             diffs = []
@@ -159,6 +169,11 @@ def run(ctx):
             r = run_limited([exe] + args + [path], timeout=20, env=base_env, cwd=otherdir); n += 1
             if r != b:
                 diffs.append(('cwd', r))
+            # the same binary invoked through another spelling of its path (relative, several directories): diagnostics of
+            # fatal() / usage() name the program by the BASE name of argv[0]
+            r = run_limited([os.path.relpath(exe, '/')] + args + [path], timeout=20, env=base_env, cwd='/'); n += 1
+            if r != b:
+                diffs.append(('argv0-path', r))
             # hooks-on build
             r = run_limited([hexe] + args + [path], timeout=20, env=base_env, cwd=os.path.dirname(path)); n += 1
             if r != b:
@@ -170,10 +185,11 @@ def run(ctx):
             if (r[0], got, r[2]) != (b[0], b[1], b[2]) or r[1] != b'':
                 diffs.append(('-o', (r[0], got, r[2])))
             # stdin: same stdout and status; diagnostics differ only in the file name
-            r = run_limited([exe] + args, input=src, timeout=20, env=base_env); n += 1
-            e1 = b[2].replace(path.encode(), b'<stdin>')
-            if (r[0], r[1]) != (b[0], b[1]) or r[2] != e1:
-                diffs.append(('stdin', r))
+            if src is not None:
+                r = run_limited([exe] + args, input=src, timeout=20, env=base_env); n += 1
+                e1 = b[2].replace(path.encode(), b'<stdin>')
+                if (r[0], r[1]) != (b[0], b[1]) or r[2] != e1:
+                    diffs.append(('stdin', r))
             return inp, b, diffs, n
         for (path, args), b, diffs, n in vlib.parallel_map(one, inputs):
             stats['inputs'] += 1
@@ -187,12 +203,12 @@ def run(ctx):
                 name, r = diffs[0]
                 ctx.violation('output of %s %s differs under perturbation %s: status %r vs %r, stdout %d vs %d bytes'
                               % (' '.join(args), os.path.basename(path), name, r[0], b[0], len(r[1]), len(b[1])),
-                              {'input': open(path, errors='replace').read(), 'args': args, 'perturbation': name,
+                              {'input': open(path, errors='replace').read() if os.path.exists(path) else '', 'args': args, 'perturbation': name,
                                'all_differing': [d[0] for d in diffs]}, 'json', key='perturb:' + name)
             if len(samples) < 3:
                 samples.append({'input': os.path.basename(path), 'args': args, 'status': b[0], 'stdout_bytes': len(b[1]),
-                                'perturbations': [e[0] for e in envs] + ['repeat', 'cwd', 'hooks-on-build', '-o', 'stdin']})
-        stats['perturbations'] = len(envs) + 5
+                                'perturbations': [e[0] for e in envs] + ['repeat', 'cwd', 'argv0-path', 'hooks-on-build', '-o', 'stdin']})
+        stats['perturbations'] = len(envs) + 6
 
         # uninitialised-value use (valgrind memcheck) on a sample
         sample = rng.sample(inputs, min(len(inputs), 24 if not thorough else 200))
